@@ -158,6 +158,8 @@ def run(ctx):
     k3_after(ctx, "R1-jail-bracket", where, g, call, tear, "teardown_jail() runs on every exit of the command code (normal or exceptional)")
     fs = repo.func(RQ, "SmartServerRequest.setup_jail")
     ctx.check("R1-jail-root", f"{RQ}:SmartServerRequest.setup_jail", any(isinstance(s, ast.Assign) and norm(s.targets[0]) == "jail_info.transports" and norm(s.value) == "[self._jail_root]" for s in walk_own(fs)), "the jail consists of self._jail_root only")
+    ji = [s_ for s_ in repo.module(RQ).tree.body if isinstance(s_, ast.Assign) and norm(s_.targets[0]) == "jail_info"]
+    ctx.check("R1-jail-per-thread", f"{RQ}:jail_info", len(ji) == 1 and norm(ji[0].value) in ("threading.local()", "local()"), "jail_info is thread-local (one jail per request-handling thread)", construct="; ".join(norm(x.value)[:50] for x in ji), message=f"jail_info is {[norm(x.value)[:50] for x in ji]} instead of threading.local(): the jail is shared by all connections of the threaded server, so one connection's teardown_jail() lifts the jail of a request still running on another")
     fn, g, where = fn_cfg(ctx, RQ, "_pre_open_hook", roles={"allowed_transports": ("assign", "getattr(jail_info, 'transports', None)")})
     rs = [n.id for n in g.nodes if n.kind == "stmt" and isinstance(n.ast, ast.Raise) and "JailBreak" in norm(n.ast)]
     rets = [n.id for n in g.nodes if n.kind == "stmt" and isinstance(n.ast, ast.Return)]
@@ -230,6 +232,19 @@ def run(ctx):
         ok = bool(jp) and all(gv.always_before(jp, [r])[0] for r in rets_v)
         ctx.check("R3b-decoded-path-revalidated", wv, ok, "after unescaping, the decoded path is normalised under '/' again (joinpath raises if it climbs out) before it is returned", construct="return str(urlutils.unescape(x))" if not ok else "", message="VfsRequest.translate_client_path unescapes the already validated path and returns it unchecked: an encoded separator or dot segment (..%2Fsecret) is decoded by the transport below the chroot and reaches files outside the served directory")
 
+        # per segment: a segment that decodes to a separator or a dot segment is refused (every layer below treats a
+        # segment as one name — the userdir filter may drop leading segments before the chroot sees the rest)
+        seg_loops = [l_ for l_ in walk_own(fv) if isinstance(l_, ast.For) and isinstance(l_.iter, ast.Call) and call_attr(l_.iter) == "split" and l_.iter.args and const_value(l_.iter.args[0]) == "/"]
+        ok_seg = False
+        for l_ in seg_loops:
+            src_txt = norm(l_)
+            raises = any(isinstance(x, ast.Raise) for x in ast.walk(l_))
+            decodes = any(call_name(c) in ("urlutils.unescape", "unescape") for c in calls_in(l_))
+            consts = {x.value for x in ast.walk(l_) if isinstance(x, ast.Constant) and isinstance(x.value, str)}
+            if raises and decodes and {"/", "..", "."} <= consts:
+                ok_seg = all(gv.always_before([n.id for n in gv.nodes if n.kind == "for" and n.ast is l_], [r])[0] for r in rets_v)
+        ctx.check("R3b-decoded-path-revalidated", wv, ok_seg, "every segment of the translated path is decoded again and refused when it becomes '/', '.' or '..'", message="VfsRequest.translate_client_path does not re-check the path segment by segment: with userdir expansion '~user/..%2Fx' normalises to '/x' as a whole, the '~user' segment is dropped below, and '..%2Fx' passes the chroot as one name that the local transport decodes to '../x'")
+
     # ---- R4 -----------------------------------------------------------------
     regs = registrations(repo)
     ctx.require(len(regs) >= 90, f"only {len(regs)} verb registrations found (hand-confirmed: 93)")
@@ -270,6 +285,8 @@ def run(ctx):
 
 
 MUTANTS = [
+    Mutant("segments not re-checked after decoding", VF, "        for segment in result.split(\"/\"):\n            decoded = urlutils.unescape(segment)\n            if decoded != segment and (\"/\" in decoded or decoded in (\".\", \"..\")):\n                raise urlutils.InvalidURLJoin(\"Encoded path separator\", \"/\", result)\n", "", expect="R3b-decoded-path-revalidated"),
+    Mutant("jail shared by all threads", RQ, "jail_info = threading.local()\n", "jail_info = type(\"JailInfo\", (), {})()\n", expect="R1-jail-per-thread"),
     Mutant("command code called directly", RQ, "        self._run_handler_code(self._command.do_end, (), {})\n        # cannot read after this.", "        self._command.do_end()\n        # cannot read after this.", expect="R1-commands-only-via-jail"),
     Mutant("teardown_jail only on success", RQ, "            try:\n                return callable(*args, **kwargs)\n            finally:\n                self._command.teardown_jail()\n", "            result = callable(*args, **kwargs)\n            self._command.teardown_jail()\n            return result\n", expect="R1-jail-bracket"),
     Mutant("pre-open hook lets unknown transports through", RQ, "    raise errors.JailBreak(abspath)\n", "    trace.mutter(\"jail break: %s\", abspath)\n", expect="R1-pre-open-hook"),
